@@ -123,6 +123,59 @@ def run_case(rec: Recorder, spec: Spec, ops: list[list[typing.Any]], rng: typing
         net.__exit__(None, None, None)
 
 
+class PairServer:
+    """Serves the response whose wire bytes are registered for the request path."""
+
+    def __init__(self, by_path: dict[str, bytes]):
+        self.by_path = by_path
+
+    def on_request(self, net: typing.Any, sc: typing.Any, req: typing.Any) -> None:
+        data = self.by_path[req.target.decode("latin-1")]
+        n = max(1, len(data) // 5)
+        sc.write_segmented([data[i : i + n] for i in range(0, len(data), n)])
+
+
+def run_pair(rec: Recorder, spec_a: Spec, spec_b: Spec, amt_a: int, amt_b: int, b_preloaded: bool) -> None:
+    """Two responses alive at once on one pool (two connections): reads alternate between them.  What one response
+    delivers must not depend on another response being decoded in the meantime (shared decoder state)."""
+    import urllib3
+
+    from vf import netsim
+
+    case = {"pair": [list(spec_a), list(spec_b)], "amts": [amt_a, amt_b], "b_preloaded": b_preloaded}
+    ha, ba, _, exp_a = respgen.build(spec_a)
+    hb, bb, _, exp_b = respgen.build(spec_b)
+    rec.mon("interleaved_pair")
+    with netsim.Net(PairServer({"/a": ha + ba, "/b": hb + bb})):
+        pool = urllib3.HTTPConnectionPool("pair.test", 80, maxsize=2, retries=False)
+        got_a, got_b = bytearray(), bytearray()
+        try:
+            ra = pool.urlopen("GET", "/a", preload_content=False, decode_content=spec_a.decode)
+            got_a += ra.read(amt_a)
+            if b_preloaded:
+                rb = pool.urlopen("GET", "/b", decode_content=spec_b.decode)
+                got_b += rb.data
+            else:
+                rb = pool.urlopen("GET", "/b", preload_content=False, decode_content=spec_b.decode)
+            for _ in range(100000):
+                pa = ra.read(amt_a)
+                pb = b"" if b_preloaded else rb.read(amt_b)
+                got_a += pa
+                got_b += pb
+                if not pa and not pb:
+                    break
+            ra.release_conn()
+            rb.release_conn()
+        except Exception as e:  # noqa: BLE001
+            rec.fail(case, "exception-on-wellformed-response", {"exc": type(e).__name__, "msg": str(e)[:100], "mixed_families": False, "coding": [spec_a.coding, spec_b.coding], "pair": True, "framing": [spec_a.framing, spec_b.framing]}, f"interleaved reads of two responses: {type(e).__name__}: {e!s:.120}")
+            pool.close()
+            return
+        pool.close()
+    if bytes(got_a) != exp_a or bytes(got_b) != exp_b:
+        which = "first" if bytes(got_a) != exp_a else "second"
+        rec.fail(case, "bytes-differ", {"pair": True, "which": which, "mixed_families": False, "coding": [spec_a.coding, spec_b.coding], "framing": [spec_a.framing, spec_b.framing], "got_len": [len(got_a), len(got_b)], "want_len": [len(exp_a), len(exp_b)]}, f"interleaved reads: the {which} response's bytes differ from what the server sent")
+
+
 def random_spec(rng: typing.Any, small: bool = False) -> Spec:
     size = rng.choice([0, 1, 5, 100] if small else [0, 1, 5, 100, 100, 3000, 3000, 70000])
     coding = rng.choice(respgen.CODINGS)
@@ -195,6 +248,19 @@ def run_shard(ctx: Ctx, rec: Recorder) -> None:
         if ctx.mine(si):
             rec.case(["preload", list(spec)])
             run_case(rec, spec, [], rng, preload=True)
+    # (ii-b) two responses alive at once, reads alternating
+    pi = 0
+    for ca in ("zstd", "zstdmb", "gzip", "deflate", "identity", "zstd2"):
+        for cb in ("zstd", "gzip", "zstdmb", "identity"):
+            for fa in ("cl", "chunked"):
+                for pre in (False, True):
+                    pi += 1
+                    if not ctx.mine(pi):
+                        continue
+                    sa = Spec(3000, ca, fa, [64, 700] if fa == "chunked" else [], "", "whole", True)
+                    sb = Spec(2000, cb, "cl", [], "", "whole", True)
+                    rec.case(["pair", ca, cb, fa, pre])
+                    run_pair(rec, sa, sb, 97, 131, pre)
     # (iii) random responses x random call sequences
     n = ctx.pick(2500, 90000)
     for i in range(n):
@@ -214,6 +280,11 @@ def run_shard(ctx: Ctx, rec: Recorder) -> None:
 
 
 def replay(case: dict[str, typing.Any], ctx: Ctx, rec: Recorder) -> None:
+    if "pair" in case:
+        rec.case(case)
+        pa, pb = case["pair"]
+        run_pair(rec, Spec(*pa), Spec(*pb), case["amts"][0], case["amts"][1], case["b_preloaded"])
+        return
     s = case["spec"]
     spec = Spec(s[0], s[1], s[2], s[3], s[4], s[5], s[6], s[7] if len(s) > 7 else False)
     rec.case(case)
